@@ -210,6 +210,38 @@ def check_tp(ctx, agg, rec):
         cls = ', multilinear space' if max(rec['ps']) == 1 else ''
         c.cmp('mass_fast(%s, %s%s)' % (tagd, gname, cls), lambda: assemble.mass_fast(kvs, geo, tol=FAST_TOL, verbose=0), M, tol=3 * FAST_TOL)
         c.cmp('stiffness_fast(%s, %s%s)' % (tagd, gname, cls), lambda: assemble.stiffness_fast(kvs, geo, tol=FAST_TOL, verbose=0), K, tol=3 * FAST_TOL)
+    # numeric predicate (no exact oracle: the integrand is rational): on a bilinear quadrilateral stretched by 2^13 in x
+    # the stiffness matrix is not of exact low rank and has entries of size 1e4, and the low-rank assembler must still
+    # agree ENTRYWISE with the standard one to the requested ABSOLUTE tolerance (factor 20 for the accumulation over
+    # the crosses).  Multilinear spaces are left out (known finding: premature stop of the random pivot search).
+    if d == 2 and rec['geo'] == 1 and max(rec['ps']) >= 2:
+        def stretched():
+            from pyiga import bspline as _b
+            cpts = np.array([[[0.0, 0.0], [8192.0, 0.0]], [[512.0, 1.0], [9216.0, 1.5]]])   # axis 0 = y, axis 1 = x
+            # reparametrise the unit square onto the parameter domain of the space
+            lo = [kv.kv[0] for kv in kvs]
+            hi = [kv.kv[-1] for kv in kvs]
+            k0 = _b.KnotVector(np.array([lo[0], lo[0], hi[0], hi[0]], dtype=float), 1)
+            k1 = _b.KnotVector(np.array([lo[1], lo[1], hi[1], hi[1]], dtype=float), 1)
+            return _b.BSplineFunc((k0, k1), cpts)
+        try:
+            gq = stretched()
+            # three uniform refinements of the spec's space: only then the matrix has a numerical rank beyond the few
+            # crosses after which the approximation of the small spaces is exact whatever the stopping rule
+            kvr = kvs
+            for _ in range(3):
+                kvr = tuple(kv.refine() for kv in kvr)
+            Kref = assemble.stiffness(kvr, gq).toarray()
+            worst = None
+            for attempt in range(2):
+                Kf = assemble.stiffness_fast(kvr, gq, tol=FAST_TOL, verbose=0).toarray()
+                err = float(np.abs(Kf - Kref).max())
+                worst = err if worst is None else min(worst, err)
+            if worst > 20 * FAST_TOL * max(1.0, 1e-16 / FAST_TOL * np.abs(Kref).max() * 50):
+                agg.add('stiffness_fast(2-D, stretched bilinear geometry): entrywise error exceeds the requested absolute tolerance',
+                        **c.info, error=worst, tol=FAST_TOL, max_entry=float(np.abs(Kref).max()))
+        except Exception as ex:
+            agg.add('stiffness_fast(2-D, stretched bilinear geometry): exception %s' % type(ex).__name__, **c.info, error=repr(ex))
     # consequences on the real matrices
     X = c.guarded('mass', lambda: assemble.mass(kvs, geo).toarray())
     if X is not None and X.shape == (N, N):
